@@ -18,6 +18,9 @@ import (
 
 var ErrCrashed = errors.New("grocksdbfake: crashed (write budget exhausted)")
 
+// ErrInjected is returned by the one write that FakeFailNext makes fail.
+var ErrInjected = errors.New("grocksdbfake: injected write failure")
+
 type CompressionType int
 
 const (
@@ -35,6 +38,11 @@ type store struct {
 	writes int64                        // number of durable write operations applied
 	log    []WriteRecord
 	logOn  bool
+
+	stalled  bool          // writes block until FakeRelease
+	stallCh  chan struct{} // closed by FakeRelease
+	waiting  int           // writers currently blocked by the stall
+	failNext bool          // the next write fails with ErrInjected and has no effect
 }
 
 // WriteRecord describes one durable (atomic) write operation.
@@ -164,10 +172,56 @@ func (s *store) cf(name string) map[string][]byte {
 	return m
 }
 
+// FakeStall makes every write on dir block (on = true) until FakeRelease(dir); reads are not affected.
+func FakeStall(dir string, on bool) {
+	s := getStore(dir)
+	s.mu.Lock()
+	defer s.mu.Unlock()
+	if on && !s.stalled {
+		s.stalled = true
+		s.stallCh = make(chan struct{})
+	}
+	if !on && s.stalled {
+		s.stalled = false
+		close(s.stallCh)
+	}
+}
+
+// FakeRelease ends a stall: blocked writes proceed in the order the scheduler wakes them.
+func FakeRelease(dir string) { FakeStall(dir, false) }
+
+// FakeStalledWriters returns how many writes are currently blocked by a stall.
+func FakeStalledWriters(dir string) int {
+	s := getStore(dir)
+	s.mu.Lock()
+	defer s.mu.Unlock()
+	return s.waiting
+}
+
+// FakeFailNext makes the next write on dir fail with ErrInjected (no effect on the store, not counted).
+func FakeFailNext(dir string) {
+	s := getStore(dir)
+	s.mu.Lock()
+	s.failNext = true
+	s.mu.Unlock()
+}
+
 // apply one atomic write; caller does not hold s.mu
 func (s *store) apply(kind string, ops []BatchOp) error {
 	s.mu.Lock()
 	defer s.mu.Unlock()
+	for s.stalled {
+		ch := s.stallCh
+		s.waiting++
+		s.mu.Unlock()
+		<-ch
+		s.mu.Lock()
+		s.waiting--
+	}
+	if s.failNext {
+		s.failNext = false
+		return ErrInjected
+	}
 	if s.budget == 0 {
 		return ErrCrashed
 	}
